@@ -582,6 +582,26 @@ pub fn drive_arith(t: &mut Tracer, tier: &str, seed: u64) {
             t.emit(&sess(), "gt.pow", json!({"prop": "C13", "base": bytes(a), "e": bytes(e), "cls": format!("fp12.{}", cls), "out": bytes(&out), "outcome": o.name(), "detail": o.detail()}));
         }
     }
+    // sums that equal the modulus except in ONE 64-bit limb (m - 2^64, m - 2^128, m - 2^192, reached as x + 0 and (x - 5) + 5): a comparison with the
+    // modulus that skips or mis-orders a limb reduces them wrongly; modulo p and modulo N
+    for limb in 1..4usize {
+        let pw = { let mut v = vec![0u8; 32]; v[31 - 8 * limb] = 1; v };
+        for (mhex, is_p) in [(P9_HEX, true), (N9_HEX, false)] {
+            let m = hexb(mhex);
+            // m - 2^(64 limb): subtract the power as big-endian byte strings
+            let mut x = m.clone(); let mut borrow = 0i32;
+            for i in (0..32).rev() { let d = x[i] as i32 - pw[i] as i32 - borrow; if d < 0 { x[i] = (d + 256) as u8; borrow = 1; } else { x[i] = d as u8; borrow = 0; } }
+            let x5 = be_add_small(&x, -5);
+            for (a, b) in [(x.clone(), vec![0u8; 32]), (x5.clone(), be_add_small(&vec![0u8; 32], 5)), (x.clone(), pw.clone())] {
+                if is_p { tower(t, sess(), 1, "add", &a, &b, "limb-below"); if b.iter().all(|z| *z == 0) { tower(t, sess(), 1, "dbl", &a, &b, "limb-below"); tower(t, sess(), 1, "mul", &a, &be_add_small(&vec![0u8; 32], 1), "limb-below"); } }
+                else {
+                    let (au, bu) = (u(&a), u(&b));
+                    let o = guard_plain(move || mod_n_add(&au, &bu));
+                    t.emit(&sess(), "modn.op", json!({"prop": "C13", "f": "add", "cls": "limb-below", "a": bytes(&a), "b": bytes(&b), "out": bytes(&o.ok().map(|x| ub(x)).unwrap_or(vec![0u8; 32])), "outcome": o.name(), "detail": o.detail()}));
+                }
+            }
+        }
+    }
     // arithmetic modulo the group order N
     let npool = field_values(&mut rng, N9_HEX, if thorough { 12 } else { 4 });
     for (i, (a, ca)) in npool.iter().enumerate() {
